@@ -60,6 +60,18 @@ def shards(tier):
                     out.append({"buf": buf, "kind": "vhdx-bitmap", "depth": depth, "where": where, "wb": wb,
                                 "slice": [i, k]})
     out.append({"buf": 8192, "kind": "vhdx-locate"})
+    for buf in bufs[:2] if q else bufs:
+        for mech in ("vmdk-hosted", "vmdk-sesparse", "vmdk-multi", "hdd", "hdd-top", "hdd-topdefault", "hdd-plainbase",
+                     "qcow2", "qcow2-ext", "vdi"):
+            for depth in (1, 2, 3):
+                W = 3 if depth < 3 else 2
+                if not q and depth == 3 and mech in ("vdi", "qcow2", "vmdk-hosted"):
+                    W = 3
+                k = {1: 1, 2: 4, 3: 8}[depth] * (4 if W == 3 and depth == 3 else 1)
+                for i in range(k):
+                    out.append({"buf": buf, "kind": "chain", "mech": mech, "depth": depth, "W": W, "slice": [i, k]})
+    out.append({"buf": 8192, "kind": "qcow2-snap", "slice": [0, 1]})
+    out.append({"buf": 8192, "kind": "locate"})
     return out
 
 
@@ -71,6 +83,12 @@ def run_shard(shard, ctx):
         _shard_vhdx_bitmap(shard, ctx)
     elif kind == "vhdx-locate":
         _shard_vhdx_locate(shard, ctx)
+    elif kind == "chain":
+        _shard_chain(shard, ctx)
+    elif kind == "qcow2-snap":
+        _shard_qsnap(shard, ctx)
+    elif kind == "locate":
+        _shard_locate(shard, ctx)
     else:
         raise ValueError(kind)
 
@@ -84,6 +102,12 @@ def run_case(case, ctx):
             _case_vhdx_bitmap(case, ctx, d, {})
         elif kind == "vhdx-locate":
             _case_vhdx_locate(case, ctx, d)
+        elif kind == "chain":
+            _case_chain(case, ctx, d, {})
+        elif kind == "qcow2-snap":
+            _case_qsnap(case, ctx)
+        elif kind == "locate":
+            _case_locate(case, ctx, d)
         else:
             raise ValueError(kind)
 
@@ -361,3 +385,474 @@ def _case_vhdx_locate(case, ctx, d):
             _close_chain(v)
             if fh:
                 fh.close()
+
+
+# ---- generic depth-1..3 chains for VMDK / Parallels / QCOW2 / VDI -------------------------------------------------------
+ALPHA = {"vmdk-hosted": [HOLE, ZERO, DATA], "vmdk-sesparse": [HOLE, ZERO, "F", DATA], "vmdk-multi": [HOLE, ZERO, DATA],
+         "hdd": [HOLE, DATA], "hdd-top": [HOLE, DATA], "hdd-topdefault": [HOLE, DATA], "hdd-plainbase": [HOLE, DATA],
+         "qcow2": ["U", "Z", "N", "C"], "qcow2-ext": ["u", "a", "z"], "vdi": [HOLE, ZERO, DATA]}
+UNIT = {"vmdk-hosted": 4096, "vmdk-sesparse": 4096, "vmdk-multi": 4096, "hdd": 4096, "hdd-top": 4096,
+        "hdd-topdefault": 4096, "hdd-plainbase": 4096, "qcow2": 4096, "qcow2-ext": 512,
+        "vdi": 4096}
+
+
+def _shard_chain(shard, ctx):
+    mech, depth, W = shard["mech"], shard["depth"], shard["W"]
+    i, k = shard["slice"]
+    per_layer = list(itertools.product(ALPHA[mech], repeat=W))
+    with scratch_dir() as d:
+        cache = {}
+        for layers in sliced(itertools.product(per_layer, repeat=depth), i, k):
+            _case_chain({"kind": "chain", "mech": mech, "layers": [list(l) for l in layers]}, ctx, d, cache)
+
+
+def _to_model_states(mech, states):
+    m = {HOLE: HOLE, ZERO: ZERO, DATA: DATA, "F": HOLE, "U": HOLE, "Z": ZERO, "N": DATA, "C": DATA, "u": HOLE, "a": DATA,
+         "z": ZERO}
+    return [m[s] for s in states]
+
+
+def _slots_for(states, k, placed):
+    """physical slots: ascending in even layers, descending in odd layers (so neighbours are never trivially adjacent)"""
+    idx = [i for i, s in enumerate(states) if s in placed]
+    order = idx if k % 2 == 0 else idx[::-1]
+    slots = [None] * len(states)
+    for n, i in enumerate(order):
+        slots[i] = n
+    return slots
+
+
+def _case_chain(case, ctx, d, cache):
+    mech, layers = case["mech"], case["layers"]
+    depth = len(layers)
+    W = len(layers[0])
+    unit = UNIT[mech]
+    buf = bootstrap.bufsize()
+    if mech == "hdd-plainbase":
+        if any(x != DATA for x in layers[0]):
+            return  # a Plain base image holds every cluster: only the all-data base map is meaningful
+
+    size = W * unit
+    # reference model: fold top-down
+    disk = None
+    if mech == "qcow2-ext":
+        for k, st in enumerate(layers):
+            sub = list(st) + ["u"] * (32 - W)
+            disk = GuestDisk(16384, 16384, [DATA], k + 1, disk, {0: _to_model_states(mech, sub)})
+        size = 16384
+    else:
+        for k, st in enumerate(layers):
+            ul = {i: (pattern.COMPRESSIBLE | (k + 1)) for i, x in enumerate(st) if x == "C"}
+            disk = GuestDisk(size, unit, _to_model_states(mech, st), k + 1, disk, unit_layers=ul)
+    ctx.model([mech, layers])
+    ctx.executions += 1
+    ctx.sample(case)
+    if "requests" in case or "sector_requests" in case:
+        reqs = [tuple(r) for r in case.get("requests", [])]
+        sreqs = [tuple(r) for r in case.get("sector_requests", [])]
+    else:
+        pts = set()
+        for u in range(W + 1):
+            for dlt in (-512, -1, 0, 1, 512, unit // 2):
+                pts.add(u * unit + dlt)
+        pts |= {size - 1, size, size + 1}
+        pts = sorted(p for p in pts if 0 <= p <= size + 1)
+        reqs = request_pairs(pts)
+        spts = sorted({p // 512 for p in pts if p <= size})
+        sreqs = request_pairs(spts) if mech.startswith("vmdk") else []
+    with ctx.watch(case):
+        try:
+            top, reader, closer = _open_chain(mech, layers, d, cache, unit)
+        except Exception as e:
+            ctx.violation(case, {"subject": f"{mech}.chain{depth}.open", "kind": "exception", "exc": type(e).__name__},
+                          {"exception": repr(e)[:400]})
+            return
+        try:
+            if top.size != size:
+                ctx.violation(case, {"subject": f"{mech}.chain{depth}.size", "kind": "mismatch"},
+                              {"got": top.size, "expected": size})
+                return
+            _count_sources(ctx, disk, reqs)
+            compare_reads(ctx, case, top, disk, reqs, f"{mech}.chain{depth}.read")
+            if reader is not None and sreqs:
+                compare_sector_reads(ctx, case, reader, disk, sreqs, f"{mech}.chain{depth}.read_sectors", 512)
+            if hasattr(top, "_verif_hdd"):
+                # open(guid) for every shot: the view of layer k is the fold of layers 0..k
+                hdd, guids = top._verif_hdd
+                m = None
+                for k, st in enumerate(layers):
+                    m = GuestDisk(size, unit, _to_model_states(mech, st), k + 1, m)
+                    for g in (guids[k], guids[k].strip("{}")):
+                        view = hdd.open(g)
+                        try:
+                            compare_reads(ctx, case, view, m, [(0, size), (unit - 1, unit + 2)],
+                                          f"{mech}.chain{depth}.open(guid{k})")
+                        finally:
+                            for _, st_ in view.streams:
+                                x = st_
+                                n = 0
+                                while x is not None and n < 6:
+                                    try:
+                                        getattr(x, "fh", x).close()
+                                    except Exception:
+                                        pass
+                                    x = getattr(x, "parent", None)
+                                    n += 1
+        finally:
+            closer()
+
+
+def _open_chain(mech, layers, d, cache, unit):
+    """Builds every layer, opens the top through the public API; returns (stream, sector reader | None, closer)."""
+    depth = len(layers)
+    W = len(layers[0])
+    if mech.startswith("vmdk"):
+        from dissect.hypervisor.disk.vmdk import VMDK
+
+        from mc.builders import vmdk as B
+
+        grain = unit // 512
+        for k, st in enumerate(layers):
+            key = (mech, k, tuple(st))
+            name = f"l{k}"
+            if cache.get(name) == key:
+                continue
+            sub = os.path.join(d, name)
+            os.makedirs(sub, exist_ok=True)
+            for fn in os.listdir(sub):
+                os.chmod(os.path.join(sub, fn), 0o644)
+                os.unlink(os.path.join(sub, fn))
+            placed = (DATA,)
+            kind = "sesparse" if (mech == "vmdk-sesparse" and k == depth - 1 and k > 0) or (mech == "vmdk-sesparse" and depth == 1) else "hosted"
+            split = [W] if not (mech == "vmdk-multi" and k == depth - 1) else [W - 1, 1]
+            extents = []
+            g0 = 0
+            for xi, n in enumerate(split):
+                part = st[g0:g0 + n]
+                slots = _slots_for(part, k, placed)
+                fn = f"{name}-s{xi + 1:03d}.vmdk"
+                if kind == "sesparse":
+                    img = B.build_sesparse(part, slots, grain, 64, n * grain, layer=k + 1)
+                    extents.append(("RW", n * grain, "SESPARSE", fn, None))
+                else:
+                    # content of extent xi starts at guest grain g0: give the builder the absolute guest position
+                    img = _hosted_extent(B, part, slots, grain, k + 1, g0)
+                    extents.append(("RW", n * grain, "SPARSE", fn, None))
+                if kind == "sesparse" and g0:
+                    raise AssertionError
+                img.write_to(os.path.join(sub, fn))
+                g0 += n
+            hint = None
+            pcid = "ffffffff"
+            if k > 0:
+                pcid = f"{k:08x}"
+                hint = f"../l{k - 1}/l{k - 1}.vmdk" if k % 2 else f"C:\\vms\\l{k - 1}\\l{k - 1}.vmdk"
+            txt = B.descriptor_text("seSparse" if kind == "sesparse" else "twoGbMaxExtentSparse", extents,
+                                    cid=f"{k + 1:08x}", parent_cid=pcid, parent_hint=hint)
+            with open(os.path.join(sub, name + ".vmdk"), "w") as f:
+                f.write(txt)
+            cache[name] = key
+            for kk in range(k + 1, 4):
+                cache.pop(f"l{kk}", None) if False else None
+        v = VMDK(Path(d) / f"l{depth - 1}" / f"l{depth - 1}.vmdk")
+
+        def closer():
+            x = v
+            n = 0
+            while x is not None and n < 6:
+                for dsk in getattr(x, "disks", []):
+                    try:
+                        dsk.fh.close()
+                    except Exception:
+                        pass
+                x = getattr(x, "parent", None)
+                n += 1
+
+        return v, v.read_sectors, closer
+    if mech.startswith("hdd"):
+        from dissect.hypervisor.disk.hdd import HDD
+
+        from mc.builders import hdd as B
+
+        spc = unit // 512
+        hd = os.path.join(d, "verif.hdd")
+        os.makedirs(hd, exist_ok=True)
+        guids = [f"{{{k + 1:08x}-0000-4000-8000-000000000000}}" for k in range(depth)]
+        if mech != "hdd-top":
+            guids[-1] = B.DEFAULT_TOP
+        images = []
+        shots = []
+        for k, st in enumerate(layers):
+            fn = f"verif.hdd.0.{guids[k]}.hds"
+            plain = mech == "hdd-plainbase" and k == 0
+            key = (mech, k, tuple(st), guids[k])
+            if cache.get(("f", k)) != key:
+                if plain:
+                    with open(os.path.join(hd, fn), "wb") as f:
+                        f.write(pattern.span(1, 0, W * unit))
+                else:
+                    slots = [s + 1 if s is not None else None for s in _slots_for(st, k, (DATA,))]
+                    B.build_hds(st, slots, spc, 2 if k % 2 == 0 else 1, W * spc, layer=k + 1).write_to(
+                        os.path.join(hd, fn))
+                cache[("f", k)] = key
+            images.append((guids[k], "Plain" if plain else "Compressed", fn))
+            shots.append((guids[k], guids[k - 1] if k else B.NULL_GUID))
+        top_el = {"hdd": None, "hdd-plainbase": None, "hdd-top": guids[-1], "hdd-topdefault": B.DEFAULT_TOP}[mech]
+        xml = B.descriptor_xml(W * spc, [(0, W * spc, images[::-1])], shots[::-1], top_guid=top_el)
+        if cache.get("xml") != xml:
+            with open(os.path.join(hd, "DiskDescriptor.xml"), "w") as f:
+                f.write(xml)
+            cache["xml"] = xml
+        hdd = HDD(Path(hd))
+        stream = hdd.open()
+        stream._verif_hdd = (hdd, guids)
+
+        def closer():
+            for _, st_ in getattr(stream, "streams", []):
+                x = st_
+                n = 0
+                while x is not None and n < 6:
+                    try:
+                        getattr(x, "fh", x).close()
+                    except Exception:
+                        pass
+                    x = getattr(x, "parent", None)
+                    n += 1
+
+        return stream, None, closer
+    if mech in ("qcow2", "qcow2-ext"):
+        from dissect.hypervisor.disk.qcow2 import QCow2
+
+        from mc.builders import qcow2 as B
+
+        q = None
+        for k, st in enumerate(layers):
+            if mech == "qcow2":
+                slots = _slots_for(st, k, ("N",))
+                img, _ = B.build(list(st), slots, 12, 3 if k % 2 == 0 else 2 if "Z" not in st else 3, layer=k + 1,
+                                 backing_name=f"l{k - 1}.qcow2" if k else None,
+                                 comp={i: ((0, 1, 511)[(i + k) % 3], 0, False) for i in range(W)})
+            else:
+                sub = list(st) + ["u"] * (32 - W)
+                alloc = "a" in sub
+                states = [{"kind": "N" if alloc else "U", "sub": sub}]
+                img, _ = B.build(states, [k + 1 if alloc else None], 14, 3, ext=True, layer=k + 1,
+                                 backing_name=f"l{k - 1}.qcow2" if k else None)
+            q = QCow2(img.bytesio(), backing_file=q) if k else QCow2(img.bytesio())
+        return q, None, (lambda: None)
+    if mech == "vdi":
+        from dissect.hypervisor.disk.vdi import VDI
+
+        from mc.builders import vdi as B
+
+        v = None
+        for k, st in enumerate(layers):
+            slots = _slots_for(st, k, (DATA,))
+            img = B.build(list(st), slots, unit, layer=k + 1, image_type=4 if k else 1,
+                          parent_uuid=b"\x11" * 16 if k else b"")
+            v = VDI(img.bytesio(), parent=v) if k else VDI(img.bytesio())
+        return v, None, (lambda: None)
+    raise ValueError(mech)
+
+
+def _hosted_extent(B, part, slots, grain, layer, g0):
+    """A hosted sparse extent whose grain j holds the pattern of *guest* grain g0 + j (extents are concatenated)."""
+    img = B.build_hosted(part, slots, grain, 512, len(part) * grain, layer=layer)
+    if g0:
+        # re-tag payload extents: the builder used guest offsets relative to the extent
+        ext = []
+        for off, kind, pl, ln in img.ext:
+            if kind == 1 and pl[0] == layer:
+                pl = (pl[0], pl[1] + g0 * grain * 512)
+            ext.append((off, kind, pl, ln))
+        img.ext = ext
+    return img
+
+
+# ---- QCOW2 internal snapshots: every view, interleaved operations on the views (they share caches and the handle) ---
+def _shard_qsnap(shard, ctx):
+    alpha = ["U", "Z", "N"]
+    W = 2
+    per = list(itertools.product(alpha, repeat=W))
+    for active in per:
+        for s1 in per:
+            for s2 in (per[0], per[4], per[8]):
+                for short_l1 in (False, True):
+                    _case_qsnap({"kind": "qcow2-snap", "active": list(active), "snaps": [list(s1), list(s2)],
+                                 "short_l1": short_l1}, ctx)
+
+
+def _case_qsnap(case, ctx):
+    from dissect.hypervisor.disk.qcow2 import QCow2
+
+    from mc.builders import qcow2 as B
+
+    cb = 9
+    cs = 512
+    l2n = cs // 8
+    active, snaps = case["active"], case["snaps"]
+    W = len(active)
+    at = l2n - 1  # the window straddles the first L2 boundary, so the views differ in their L1 tables too
+    total = at + W
+    # every view stores its own data in its own slots (slot = view * W + i); views never share a slot here
+    def slots_of(st, v):
+        return [v * W + i if x == "N" else None for i, x in enumerate(st)]
+
+    sdefs = []
+    for n, st in enumerate(snaps):
+        sdefs.append({"states": st, "slots": slots_of(st, n + 1), "id": str(n + 1), "name": f"snap-{n}", "layer": n + 2,
+                      "window_at": at, "l1_size": 1 if (case["short_l1"] and n == 0) else None})
+    img, _ = B.build(active, slots_of(active, 0), cb, 3, None, at, total, snapshots=sdefs)
+    models = [B.model(active, cb, None, at, total, 1)]
+    for n, st in enumerate(snaps):
+        st_eff = list(st)
+        if case["short_l1"] and n == 0:
+            # a snapshot L1 table with one entry covers only the first L2 table: clusters beyond read as unallocated
+            st_eff = [x if (at + i) < l2n else "U" for i, x in enumerate(st)]
+        models.append(B.model(st_eff, cb, None, at, total, n + 2))
+    ctx.model(case)
+    ctx.executions += 1
+    ctx.sample(case)
+    size = total * cs
+    lo = (at - 1) * cs
+    pts = [lo, lo + 1, at * cs - 1, at * cs, at * cs + 1, (at + 1) * cs - 1, (at + 1) * cs, (at + 1) * cs + 5, size - 1, size]
+    reqs = request_pairs(pts)
+    with ctx.watch(case):
+        try:
+            q = QCow2(img.bytesio())
+            views = [q] + [s.open() for s in q.snapshots]
+        except Exception as e:
+            ctx.violation(case, {"subject": "qcow2.snapshot.open", "kind": "exception", "exc": type(e).__name__},
+                          {"exception": repr(e)[:300]})
+            return
+        if len(views) != len(models):
+            ctx.violation(case, {"subject": "qcow2.snapshot.count", "kind": "mismatch"}, {"got": len(views)})
+            return
+        # interleave: for every request, every order of the views (Shape B, depth = number of views)
+        orders = list(itertools.permutations(range(len(views))))
+        for oi, (a, n) in enumerate(reqs):
+            order = orders[oi % len(orders)]
+            for vi in order:
+                sub = dict(case, requests=[[a, n]])
+                _count_sources(ctx, models[vi], [(a, n)])
+                if not compare_reads(ctx, sub, views[vi], models[vi], [(a, n)], f"qcow2.snapshot.view{vi}.read"):
+                    return
+
+
+# ---- parent resolution configurations (VMDK, QCOW2 opt-out, Parallels) ---------------------------------------------
+def _shard_locate(shard, ctx):
+    for cfg in ("vmdk-same-dir", "vmdk-relative", "vmdk-backslash-abs", "vmdk-sibling-dir", "vmdk-missing",
+                "vmdk-embedded-missing", "vmdk-embedded-found", "qcow2-none-given", "qcow2-optout", "qcow2-given",
+                "hdd-missing-image", "hdd-moved-absolute"):
+        run_case({"kind": "locate", "cfg": cfg}, ctx)
+
+
+def _case_locate(case, ctx, d):
+    cfg = case["cfg"]
+    ctx.executions += 1
+    ctx.model(case)
+    ctx.sample(case)
+    grain = 8
+    unit = 4096
+    base_states, top_states = [DATA, DATA, HOLE], [HOLE, DATA, HOLE]
+    parent = GuestDisk(3 * unit, unit, base_states, 1)
+    disk = GuestDisk(3 * unit, unit, top_states, 2, parent)
+    alone = GuestDisk(3 * unit, unit, top_states, 2)
+    reqs = [(0, 3 * unit), (0, 512), (unit - 1, 2), (2 * unit, 100)]
+    expect_fail = cfg in ("vmdk-missing", "vmdk-embedded-missing", "qcow2-none-given", "hdd-missing-image")
+    optout = cfg == "qcow2-optout"
+    with ctx.watch(case):
+        try:
+            stream = _open_locate(cfg, d, grain, base_states, top_states)
+        except Exception as e:
+            if expect_fail:
+                ctx.outcome("refused")
+                ctx.nontrivial += 1
+            else:
+                ctx.violation(case, {"subject": "locate", "kind": "exception", "cfg": cfg, "exc": type(e).__name__},
+                              {"exception": repr(e)[:300]})
+            return
+        if expect_fail:
+            try:
+                got = stream.read(512)
+            except Exception:
+                ctx.outcome("refused-late")
+                ctx.nontrivial += 1
+                return
+            ctx.violation(case, {"subject": "locate", "kind": "child-served-alone", "cfg": cfg}, {"read": got[:16].hex()})
+            return
+        ctx.outcome("optout" if optout else "resolved")
+        ctx.nontrivial += 1
+        compare_reads(ctx, case, stream, alone if optout else disk, reqs, "locate." + cfg)
+
+
+def _open_locate(cfg, d, grain, base_states, top_states):
+    from mc.builders import hdd as BH
+    from mc.builders import qcow2 as BQ
+    from mc.builders import vmdk as BV
+
+    W = len(top_states)
+    if cfg.startswith("vmdk"):
+        from dissect.hypervisor.disk.vmdk import VMDK
+
+        vm = os.path.join(d, "vm")
+        old = os.path.join(d, "old")
+        os.makedirs(vm)
+        os.makedirs(old)
+        where = {"vmdk-same-dir": vm, "vmdk-relative": old, "vmdk-backslash-abs": vm, "vmdk-sibling-dir": old,
+                 "vmdk-missing": None, "vmdk-embedded-missing": None, "vmdk-embedded-found": vm}[cfg]
+        hint = {"vmdk-same-dir": "base.vmdk", "vmdk-relative": "../old/base.vmdk",
+                "vmdk-backslash-abs": "C:\\Users\\x\\vm\\base.vmdk", "vmdk-sibling-dir": "/somewhere/else/old/base.vmdk",
+                "vmdk-missing": "base.vmdk", "vmdk-embedded-missing": "base.vmdk", "vmdk-embedded-found": "base.vmdk"}[cfg]
+        if where:
+            BV.build_hosted(base_states, _slots_for(base_states, 0, (DATA,)), grain, layer=1).write_to(
+                os.path.join(where, "base-s001.vmdk"))
+            with open(os.path.join(where, "base.vmdk"), "w") as f:
+                f.write(BV.descriptor_text("monolithicSparse", [("RW", W * grain, "SPARSE", "base-s001.vmdk", None)],
+                                           cid="00000001"))
+        if cfg.startswith("vmdk-embedded"):
+            txt = BV.descriptor_text("monolithicSparse", [("RW", W * grain, "SPARSE", "top.vmdk", None)], cid="00000002",
+                                     parent_cid="00000001", parent_hint=hint)
+            BV.build_hosted(top_states, _slots_for(top_states, 1, (DATA,)), grain, layer=2, descriptor=txt).write_to(
+                os.path.join(vm, "top.vmdk"))
+            return VMDK(Path(vm) / "top.vmdk")
+        BV.build_hosted(top_states, _slots_for(top_states, 1, (DATA,)), grain, layer=2).write_to(
+            os.path.join(vm, "top-s001.vmdk"))
+        with open(os.path.join(vm, "top.vmdk"), "w") as f:
+            f.write(BV.descriptor_text("monolithicSparse", [("RW", W * grain, "SPARSE", "top-s001.vmdk", None)],
+                                       cid="00000002", parent_cid="00000001", parent_hint=hint))
+        return VMDK(Path(vm) / "top.vmdk")
+    if cfg.startswith("qcow2"):
+        from dissect.hypervisor.disk import qcow2 as Q
+
+        m = {HOLE: "U", DATA: "N"}
+        base, _ = BQ.build([m[x] for x in base_states], _slots_for(base_states, 0, (DATA,)), 12, 3, layer=1)
+        top, _ = BQ.build([m[x] for x in top_states], _slots_for(top_states, 1, (DATA,)), 12, 3, layer=2,
+                          backing_name="base.qcow2", backing_format="qcow2")
+        if cfg == "qcow2-none-given":
+            return Q.QCow2(top.bytesio())
+        if cfg == "qcow2-optout":
+            return Q.QCow2(top.bytesio(), backing_file=Q.ALLOW_NO_BACKING_FILE)
+        return Q.QCow2(top.bytesio(), backing_file=Q.QCow2(base.bytesio()))
+    if cfg.startswith("hdd"):
+        from dissect.hypervisor.disk.hdd import HDD
+
+        spc = grain
+        pvm = os.path.join(d, "new.pvm")
+        hd = os.path.join(pvm, "disk.hdd")
+        os.makedirs(hd)
+        g0 = "{00000001-0000-4000-8000-000000000000}"
+        files = {g0: "disk.hdd.0." + g0 + ".hds", BH.DEFAULT_TOP: "disk.hdd.0." + BH.DEFAULT_TOP + ".hds"}
+        slots0 = [s + 1 if s is not None else None for s in _slots_for(base_states, 0, (DATA,))]
+        slots1 = [s + 1 if s is not None else None for s in _slots_for(top_states, 1, (DATA,))]
+        if cfg != "hdd-missing-image":
+            BH.build_hds(base_states, slots0, spc, 2, W * spc, layer=1).write_to(os.path.join(hd, files[g0]))
+        BH.build_hds(top_states, slots1, spc, 2, W * spc, layer=2).write_to(os.path.join(hd, files[BH.DEFAULT_TOP]))
+        prefix = "/Users/someone/Parallels/old.pvm/disk.hdd/" if cfg == "hdd-moved-absolute" else ""
+        xml = BH.descriptor_xml(W * spc, [(0, W * spc, [(g0, "Compressed", prefix + files[g0]),
+                                                        (BH.DEFAULT_TOP, "Compressed", prefix + files[BH.DEFAULT_TOP])])],
+                                [(g0, BH.NULL_GUID), (BH.DEFAULT_TOP, g0)])
+        with open(os.path.join(hd, "DiskDescriptor.xml"), "w") as f:
+            f.write(xml)
+        return HDD(Path(hd)).open()
+    raise ValueError(cfg)
